@@ -706,11 +706,15 @@ def check_C19(ctx):
 
 def check_C20(ctx):
     ctx.rule = ("TLC enumerates every text of <=5 characters over {H,P,:,0,1,9,x,blank,e-acute (2 bytes),emoji (4 bytes)} with the result parsing must give "
-                "(value or error; byte offset 3 inside a character is an error, never a panic) and checks ParseChar and the inverse laws on border ids; the harness replays "
+                "(value or error; byte offset 3 inside a character is an error, never a panic) and checks ParseChar and the inverse laws on border ids; MC_TermIdT adds template texts: the prefix plus 1..10 digits (three digit patterns) "
+                "in which one position of the tail or the prefix is replaced by each printable ASCII character, tab, newline, NUL, DEL and six multi-byte characters incl. non-ASCII decimal digits; the harness replays "
                 "HpoTermId::try_from under catch_unwind, compares Display / to_be_bytes / from([u8;4]) / from_u32, adds the cases beyond TLC's 32-bit integers "
                 "(4294967295, 4294967296, 200-digit and 300-character inputs) and sweeps the inverse laws over every id 0..10^7+16 and the top of u32; "
                 "non-trivial = parses, or contains a multi-byte character")
-    out = tlc(ctx, "mc/MC_TermId.cfg" if ctx.quick else "mc/MC_TermId6.cfg", "mc/MC_TermId.tla", workers=8, timeout=1800)["out"]
+    outs = [tlc(ctx, "mc/MC_TermId.cfg" if ctx.quick else "mc/MC_TermId6.cfg", "mc/MC_TermId.tla", workers=8, timeout=1800)["out"]]
+    # "digits at every position": prefix + 1..10 digits with one position replaced by every printable ASCII / multi-byte character
+    outs.append(tlc(ctx, "mc/MC_TermIdT.cfg", "mc/MC_TermIdT.tla", workers=4, timeout=1800)["out"])
+    out = concat(ctx, outs, "c20-lines.txt")
     s = hv(ctx, "replay-termid", prop="C20", **{"in": out})
     ctx.traces += s.get("cases", 0)
     ctx.extra["ids_swept"] = s.get("counters", {}).get("ids_swept", 0)
